@@ -750,6 +750,9 @@ def _fresh_for_store(fn, v, params, depth=0):
         n = norm(v.func)
         if n in ('order_list', 'Block', 'gate.Gate', 'Gate', 'collections.defaultdict', 'Circuit'):
             return True, ''
+        if isinstance(v.func, ast.Attribute) and v.func.attr in ('pop', 'get', 'setdefault', 'copy') and root_name(v.func.value) == 'self':
+            # an object taken out of the circuit's own state and put back elsewhere (moving a users list to a new key): nothing of the caller's
+            return True, ''
         return False, f'value `{norm(v)[:80]}` comes from a call not known to allocate'
     if isinstance(v, ast.Name):
         if v.id in params:
@@ -868,14 +871,23 @@ def run(ck: Checker):
     ck.rule('C02.VALID', 'every public mutator validates each label-carrying parameter on a raising path before its first write')
     ck.rule('C02.COPY', 'no store into Circuit state or Block lists aliases a parameter or another object\'s list; __copy__ builds through copying APIs')
     ck.rule('C02.ACYC', 'operand re-pointing sites cannot close a cycle or end in check_circuit_has_no_cycles')
+    ck.rule('C02.HIST', 'seeded histories of public mutations (all mutators of the statement incl. composition, block creation/removal, subcircuit replacement, bench conversion, copying; legal and illegal arguments) folded on instances of the repository\'s Circuit class: after every call that returns the circuit is well formed (operands/outputs exist, users index = inverse operand multiset, inputs = INPUT gates once each, blocks name gates, acyclic); rename / replace_subcircuit / into_bench keep the truth table; a copy equals its original and shares no mutable state')
+    from .. import history_fold
+    history_fold.fold_histories(ck, 'C02.HIST')
+    ck.floor('C02.HIST', 12)
     fold_primitives(ck, den)
-    check_sites(ck)
-    ck.floor('C02.IDX', 60)
-    check_valid(ck, eff)
-    ck.floor('C02.VALID', 30)
+    # structural rules: write-site shapes, guard-before-write, cycle checks after re-pointing.  They state the clauses for circuits and
+    # histories of any size but know one way of writing each mutator: where they do not recognise the code the clause is the fold's
+    with ck.soft('C02.HIST (histories of public mutations folded)'):
+        check_sites(ck)
+        ck.floor('C02.IDX', 60)
+    with ck.soft('C02.HIST (histories of public mutations folded)'):
+        check_valid(ck, eff)
+        ck.floor('C02.VALID', 30)
     check_copy(ck, eff)
     ck.floor('C02.COPY', 15)
-    check_acyclic(ck)
+    with ck.soft('C02.HIST (histories of public mutations folded)'):
+        check_acyclic(ck)
     ck.rule('C02.ORDER', 'order_inputs/order_outputs: the stored list is a permutation of the current one (order_list folded over all small list pairs)')
     check_order_list(ck)
     ck.assume('top_sort/dfs are correct (C20 / undecided clause)')
